@@ -108,16 +108,30 @@ func init() {
 			}
 			// iterative deepening: the smallest instance must complete; larger ones are explored
 			// within a time budget (the cost depends on how the socket implements its deadline)
-			if tier == "thorough" {
-				return []gosym.RunConfig{mk(1, 1, 0), mk(2, 1, 600), mk(3, 1, 900), mk(2, 2, 900)}
+			var out []gosym.RunConfig
+			// packet buffer (also the read side of udp.Conn): one run per script
+			for k1 := int64(0); k1 <= 2; k1++ {
+				for k2 := int64(0); k2 <= 2; k2++ {
+					for _, pre := range []int64{0, 2} {
+						if tier != "thorough" && pre == 0 && k1 != 2 && k2 != 2 {
+							continue
+						}
+						out = append(out, gosym.RunConfig{Name: fmt.Sprintf("buffer-%c%c-pre%d", "zpf"[k1], "zpf"[k2], pre), PkgPath: modulePath + "/packetio", Entry: "VerifBufDeadline", Sched: true, Unwind: 6, AssertPrefix: "C10:",
+							Params: map[string]int64{"kind1": k1, "kind2": k2, "pre": pre, "steps": 40}})
+					}
+				}
 			}
-			return []gosym.RunConfig{mk(1, 1, 0), mk(3, 1, 40)}
+			if tier == "thorough" {
+				return append(out, mk(1, 1, 0), mk(2, 1, 600), mk(3, 1, 900), mk(2, 2, 900))
+			}
+			return append(out, mk(1, 1, 0), mk(3, 1, 40))
 		},
 		Bounds: func(tier string) []string {
-			return []string{"vnet UDP socket: one user goroutine with 2 (thorough 3) events (SetReadDeadline zero / offset -20..100 from now, clock advance 1..200; symbolic) and 1 reader; each reader calls ReadFrom once at an arbitrary moment; timer ticks dispatched at any later step; idle period at the end"}
+			return []string{"packet buffer: scripts SetReadDeadline(kind1) - idle - Read - Read - SetReadDeadline(kind2) - idle - Read with 0 or 2 packets buffered, kinds zero / past / future with symbolic offsets (0..500) and symbolic idle periods (0..1000), every read in its own goroutine, timers dispatched at any later step",
+				"vnet UDP socket: one user goroutine with 2 (thorough 3) events (SetReadDeadline zero / offset -20..100 from now, clock advance 1..200; symbolic) and 1 reader; each reader calls ReadFrom once at an arbitrary moment; timer ticks dispatched at any later step; idle period at the end"}
 		},
 		Assume:  []string{"time.NewTimer/Reset/C: legacy channel-timer semantics (one buffered tick, Reset does not drain), selected by the module's go 1.20 line", "no data arrives (data delivery is C01/C06)", "the clock advances only when the user goroutine or the harness advances it, plus a positive amount at every timer dispatch"},
-		Outside: []string{"packetio.Buffer / dpipe / Bridge / udp.Conn read deadlines beyond what C08 and C09 decide about deadline.Deadline and Buffer.Read (see DESIGN.md)"}})
+		Outside: []string{"dpipe / Bridge read deadlines (both use deadline.Deadline, C09) and udp.Conn (reads through packetio.Buffer)", "data arriving while a deadline is pending on the vnet socket"}})
 	for _, id := range []string{"C02", "C03"} {
 		register(&Prop{ID: id, Pkgs: vnetPkgs, InitPkgs: []string{"vnet"}, InstrDirs: []string{"vnet"}, Runs: natRuns(id + ":"), Bounds: natBounds, Assume: natAssume,
 			Outside: []string{"more than k datagrams (in particular more than 16384 allocations: see DESIGN.md)", "more than 2 internal endpoints / 3 remotes", "IPv6"}})
